@@ -607,9 +607,24 @@ struct Exec {
     logf("op %d %s -> ABORTED (jump %d)", cur_op, kOpShort[op.kind], j);
   }
 
+  // the six settings of an object as the setters report them (set, read the old value, set back)
+  void check_settings(ObjRec *o, const char *site) {
+    static const int probe_vals[6] = {2, 1, 0, 1, 0, 1};
+    for (int s = 0; s < 6; s++) {
+      int old = -999, back = -999;
+      void *h = o->h;
+      int pv = probe_vals[s];
+      guarded([&] { old = api->set(h, s, pv); back = api->set(h, s, old); });
+      if (old != o->m.set[s])
+        viol("C15", "setting_changed", site, "setting " + std::to_string(s) + " reads " + std::to_string(old) + " after the failed call, the caller had set " + std::to_string(o->m.set[s]));
+      (void)back;
+    }
+  }
+
   void op_set(const Op &op) {
     ObjRec *o = obj_of(op.task, op.obj);
-    if (!o || !o->alive || (o->struck && !plan.probe_reuse)) { skip(op); return; }
+    // setters only touch the grammar structure: they are safe (and meaningful) on an object struck by an allocation failure
+    if (!o || !o->alive || !o->h) { skip(op); return; }
     int ret = -999;
     int j = guarded([&] { ret = api->set(o->h, (int)op.setter, op.value); });
     if (j) { aborted = true; handle_jump(op, j, false); return; }
@@ -671,6 +686,7 @@ struct Exec {
       if (rc == YAEP_NO_MEMORY) {
         if (code != YAEP_NO_MEMORY) viol("C17", "error_code_after_oom", "DEFINE", "yaep_error_code is " + std::to_string(code) + " after YAEP_NO_MEMORY");
         o->m.err = YAEP_NO_MEMORY; o->m.defined = false; o->m.gidx = op.grammar; o->struck = true;
+        check_settings(o, "DEFINE");
         logf("op %d DEFINE -> rc=1 (alloc fault)", cur_op);
         return;
       }
@@ -834,6 +850,7 @@ struct Exec {
         if (root && root != (yaep_tree_node *)(uintptr_t)0x1) probe("root_not_null_after_oom");
         o->m.err = YAEP_NO_MEMORY;
         o->struck = true;
+        check_settings(o, "PARSE");
         // tree blocks of the failed parse are unreachable for the caller: release them here
         release_parse_blocks(cur_op);
         logf("op %d PARSE -> rc=1 (alloc fault)", cur_op);
@@ -1214,6 +1231,7 @@ RunResult execute_plan(const Plan &plan_in, const ExecOptions &opt) {
   }
   res.resolved = plan;
   std::vector<std::string> logs[2];
+  bool any_aborted = false;
   uint64_t h = 1469598103934665603ull;
   for (int b = 0; b < 2; b++) {
     if (!(plan.backends & (1 << b))) continue;
@@ -1222,12 +1240,12 @@ RunResult execute_plan(const Plan &plan_in, const ExecOptions &opt) {
     ex.run();
     logs[b] = ex.log;
     for (auto &l : ex.log) h = fnv1a(l, h);
-    if (ex.aborted) res.stats.probes["run_aborted"]++;
+    if (ex.aborted) { res.stats.probes["run_aborted"]++; any_aborted = true; }
     heap_forget_all();
     if (ex.aborted) break;
   }
   // C16: both libraries must have produced the same history
-  if (!opt.raw && plan.backends == 3) {
+  if (!opt.raw && plan.backends == 3 && !any_aborted) {
     size_t n = std::min(logs[0].size(), logs[1].size());
     size_t i = 0;
     for (; i < n; i++) if (logs[0][i] != logs[1][i]) break;
